@@ -367,7 +367,7 @@ PROPS['C11'] = {
                          ['unprivileged+nnp+migrating-perturbation', 'unprivileged-load-refused', 'control-goroutine-migrated', 'strace-order-and-thread', 'after-loads-on-other-threads',
                           'calling-thread:prior-no-nnp/nnp:true', 'calling-thread:prior-nnp/nnp:false', 'calling-thread:prctl-denied/nnp:true']},
     'units': [
-        {'test': 'TestC11NoNewPrivs', 'checks': {'quick': 640, 'thorough': 64000}, 'shards': {'quick': 16, 'thorough': 16}, 'helpers': _KCHILD,
+        {'test': 'TestC11NoNewPrivs', 'checks': {'quick': 960, 'thorough': 64000}, 'shards': {'quick': 16, 'thorough': 16}, 'helpers': _KCHILD,
          'timeout': {'quick': 500, 'thorough': 3300}},
     ],
 }
@@ -498,3 +498,5 @@ PROPS['C01']['units'].append({'test': 'TestC01Concurrent', 'checks': {'quick': 3
 PROPS['C05']['units'].append({'test': 'TestC05Concurrent', 'checks': {'quick': 320, 'thorough': 16000}, 'shards': {'quick': 4, 'thorough': 8}, 'timeout': {'quick': 300, 'thorough': 3000}})
 PROPS['C01']['required_classes']['all'] += ['groups>=64', 'concurrent-compilations-for-different-architectures']
 PROPS['C05']['required_classes']['all'] += ['concurrent-compilations-for-different-architectures', 'value-edited-and-compiled-again-while-the-program-is-held']
+PROPS['C15']['required_classes']['all'] += ['policy-file-larger-than-64KiB', 'keys-outside-the-dialect:accepted']
+PROPS['C10']['required_classes']['all'] += ['policy-that-allows-everything']
